@@ -556,7 +556,7 @@ def eol_patterns(n: int, mode: str) -> list:
 
 
 def bodies(files: list, api: str, level: str) -> list:
-    """(edit, st, rz) triples for a world.  level: 'full' | 'pruned' | 'min'."""
+    """(edit, st, rz) triples for a world.  level: 'full' | 'pruned' | 'pruned-q' | 'min'."""
     if api == 'one':
         return [([], None, None), (['main.bean'], None, None), (['main.bean'], None, 'before'),
                 (['main.bean'], None, 'after'), ([], None, 'after')]
@@ -578,8 +578,11 @@ def bodies(files: list, api: str, level: str) -> list:
     # raising bodies: nothing may be touched whatever was done to the models before / in between / after
     if level == 'full':
         rbodies = [(s, st) for st in [None] + structs for s in subsets if len(s) in (0, len(visited))]
-    else:
+    elif level == 'pruned':
         rbodies = [(visited, None), (visited, ['del', visited[-1]]), (visited, ['add', 'newsub/n.bean', 'l'])]
+    else:
+        rbodies = [(visited, ['del', visited[-1]])]
+        out.append((visited, ['add', 'newsub/n.bean', 'l'], 'after'))
     for s, st in rbodies:
         nsteps = len(s) + (1 if st else 0)
         for rz in ('before', 'between', 'after'):
@@ -632,10 +635,10 @@ def build_cases(tier: str) -> tuple:
     bounds: dict = {}
     pruned: list = []
 
-    def add(w: Any, api: str, sps: list, level: str) -> None:
+    def add(w: Any, api: str, sps: list, level: str, raise_sps: Optional[list] = None) -> None:
         files = expand_world(w)
         for edit, st, rz in bodies(files, api, level):
-            items.append({'api': api, 'w': w, 'sp': sps, 'edit': edit, 'st': st, 'rz': rz})
+            items.append({'api': api, 'w': w, 'sp': (raise_sps or sps) if rz else sps, 'edit': edit, 'st': st, 'rz': rz})
 
     # k = 1, 2: the full product
     for k in (1, 2):
@@ -651,21 +654,23 @@ def build_cases(tier: str) -> tuple:
         for eols in eol_patterns(3, 'all' if thorough else 'quick'):
             w = ['g', 3, mask, eols]
             if thorough:
-                add(w, 'rec', SP_ALL if eols in ('lll', 'ccc') else SP_STR, 'full' if eols in ('lll', 'ccc', 'lcl') else 'pruned')
+                add(w, 'rec', SP_ALL if eols in ('lll', 'ccc') else SP_STR, 'full' if eols in ('lll', 'ccc', 'lcl') else 'pruned',
+                    raise_sps=[['abs', False], ['bare', False], ['rel', True]])
             else:
-                add(w, 'rec', SP_STR if eols == 'lll' else [['abs', False], ['bare', True], ['dotdot', False]], 'pruned')
+                add(w, 'rec', SP_STR if eols == 'lll' else [['abs', False], ['bare', True]], 'pruned-q')
         for eols in ('lll', 'ccc'):
             add(['g', 3, mask, eols], 'one', SP_STR if thorough else [['abs', False], ['bare', True]], 'full')
     if thorough:
         bounds['k=3'] = ('all 512 edge sets x all 8 LF/CRLF assignments; str/Path x 5 spellings for all-LF and all-CRLF, 5 str '
                          'spellings otherwise; full body product for lll/ccc/lcl, pruned bodies for the other 5 assignments')
         pruned.append('k=3 thorough: Path spellings only with all-LF/all-CRLF contents; the 5 other mixed LF/CRLF assignments '
-                      'use pruned bodies (structural action and raise points only with none/all files edited)')
+                      'use pruned bodies (structural action and raise points only with none/all files edited); raising bodies '
+                      'run with 3 spellings (abs str, bare str, dir/x Path) instead of all')
     else:
         bounds['k=3'] = ('all 512 edge sets x {all-LF, all-CRLF, one mixed}; all-LF with 5 str spellings, CRLF/mixed with '
-                         '{abs str, bare Path, dir/../dir str}; bodies: every edit subset; structural action x {no, all} files '
-                         'edited; raise points on 3 bodies')
-        pruned.append('k=3 quick: Path form and the spellings dir/x, ./x are not crossed with CRLF contents; structural actions '
+                         '{abs str, bare Path}; bodies: every edit subset; structural action x {no, all} files edited; raise '
+                         'before/between/after on (all edited + delete last), raise after on (all edited + add in new sub-directory)')
+        pruned.append('k=3 quick: Path form and the spellings dir/x, ./x, dir/../dir/x are not crossed with CRLF contents; structural actions '
                       'and raise points are crossed only with none/all visited files edited (full product is in the k<=2 block '
                       'and in the thorough tier)')
     # variants
